@@ -134,7 +134,11 @@ func NewSession(kind int, o Options) *Session {
 			}
 			c = modbus.NewRTUClientWithConfig(cfg)
 		}
-		_ = c.Connect(context.Background(), "verif:1")
+		// the context given to Connect is the connect call's own: the application ends it as soon as Connect has returned
+		// (defer cancel()), which is no business of the connection that was established
+		cctx, ccancel := context.WithCancel(context.Background())
+		_ = c.Connect(cctx, "verif:1")
+		ccancel()
 		s.do = c.Do
 	case Serial:
 		opts := []modbus.SerialClientOptionFunc{modbus.WithSerialReadTimeout(o.ReadTimeout)}
